@@ -2,7 +2,7 @@ package main
 
 func init() {
 	register("C02", &propInfo{
-		Explanation: "BP: every tabled bisection that refines a surface point keeps the contained end in the variable it later reports as contained (BP.OUT), validates/swaps its ends consistently before the loop (BP.PRE) and BisectInterior takes the inside result (BP.SEL). UNIT: margins and offsets in the meshing code (mc.go, marching.go, dc.go, surface_estimator.go) are lengths: a documented fraction of Delta is multiplied by Delta before it is added to a coordinate, and every function returns one dimension on all paths.",
+		Explanation: "BP: every tabled bisection that refines a surface point keeps the contained end in the variable it later reports as contained (BP.OUT), validates/swaps its ends consistently before the loop (BP.PRE) BisectInterior takes the inside result (BP.SEL) and Bisect/BisectInterior rebuild the returned point with exactly the expression Contains was evaluated on (BP.SAME). UNIT: margins and offsets in the meshing code (mc.go, marching.go, dc.go, surface_estimator.go) are lengths: a documented fraction of Delta is multiplied by Delta before it is added to a coordinate, and every function returns one dimension on all paths.",
 		Trusted:     append([]string{"the table of bisection sites and their documented 'inside' output (checker/bp.go)"}, unitTrusted...),
 		Fixtures:    []string{"u"},
 		Run: func(c *Ctx) {
@@ -10,6 +10,8 @@ func init() {
 			c.floor("BP.OUT", 4)
 			c.floor("BP.PRE", 5)
 			c.floor("BP.SEL", 2)
+			c.runBisectionSameExpr("BP")
+			c.floor("BP.SAME", 4)
 			c.runUnits("UNIT", c.unitPkgs("u"), c.fileFilter("mc.go", "marching.go", "dc.go", "surface_estimator.go"))
 			c.floor("UNIT", 10)
 		},
@@ -24,6 +26,8 @@ func init() {
 				Old: "\tif s.Solid.Contains(p1) {\n\t\tp1, p2 = p2, p1\n\t}\n\talpha := s.BisectInterp(p1, p2, 0, 1)", New: "\tif !s.Solid.Contains(p1) {\n\t\tp1, p2 = p2, p1\n\t}\n\talpha := s.BisectInterp(p1, p2, 0, 1)", Rule: "BP.PRE", Expect: "Bisect"},
 			{Name: "BisectInterior takes the outside parameter", File: "model3d/surface_estimator.go",
 				Old: "_, alpha := s.BisectInterpRange(p1, p2, 0, 1)", New: "alpha, _ := s.BisectInterpRange(p1, p2, 0, 1)", Rule: "BP.SEL", Expect: "BisectInterior"},
+			{Name: "interior point recomputed as a convex combination", File: "model3d/surface_estimator.go",
+				Old: "\t_, alpha := s.BisectInterpRange(p1, p2, 0, 1)\n\treturn p1.Add(p2.Sub(p1).Scale(alpha))", New: "\t_, alpha := s.BisectInterpRange(p1, p2, 0, 1)\n\treturn p1.Scale(1 - alpha).Add(p2.Scale(alpha))", Rule: "BP.SAME", Expect: "BisectInterior"},
 			{Name: "solid collider returns the outside end", File: "model3d/collisions.go",
 				Old: "\t// Always return the point inside the solid\n\treturn max", New: "\t// Always return the point inside the solid\n\treturn min", Rule: "BP.OUT", Expect: "bisectCollision"},
 			{Name: "repair epsilon not scaled by Delta when set explicitly", File: "model3d/dc.go",
